@@ -130,6 +130,11 @@ def reader (m : HMap) (ct ck v : Bytes) : HMap :=
   let m1 := if ct.isEmpty then m else header m "Content-Type".toList ct
   header m1 ck v
 
+/-- `app.Context.fail` (app/context.go), the loop over `response.Headers` and the content type -/
+def failHeaders (m : HMap) (ck : Bytes) (vs : List Bytes) (ct : Bytes) : HMap :=
+  header (vs.foldl (fun m v => header m ck v) m) "Content-Type".toList
+    (if ct.isEmpty then "application/json; charset=utf-8".toList else ct)
+
 inductive Op
   | header (ck v : Bytes)
   | append (ck v : Bytes)
@@ -142,6 +147,9 @@ inductive Op
   | setCookie (cookieStr : Bytes)
   | data (ct : Bytes)
   | reader (ct ck v : Bytes)
+  /-- the header part of `app.Context.fail`: every value the error formatter returns for a header goes
+      through `c.Header` (each one replacing the one before), then the formatter's content type -/
+  | failHeaders (ck : Bytes) (vs : List Bytes) (ct : Bytes)
   deriving Repr
 
 def apply (m : HMap) : Op → HMap
@@ -156,6 +164,7 @@ def apply (m : HMap) : Op → HMap
   | .setCookie s => setCookie m s
   | .data ct => data m ct
   | .reader ct ck v => reader m ct ck v
+  | .failHeaders ck vs ct => failHeaders m ck vs ct
 
 /-- as shipped: AppendHeader, Vary, Data and DataFromReader bypass the sanitiser -/
 def applyAsIs (m : HMap) : Op → HMap
